@@ -906,6 +906,8 @@ class Exec:
                 return mk_py(val)
             return self.wrap_global(None, attr, val)
         if obj.k == "str":
+            if not hasattr("", attr):
+                self.raise_(st, "AttributeError", node)
             return mk_py(BoundMethod(obj, attr, cls="str"))
         if obj.k in ("int", "bool", "flt", "none", "tup"):
             if obj.k == "tup" and attr in ("index", "count"):
@@ -914,6 +916,8 @@ class Exec:
         if obj.k == "any":
             # strings have methods too
             if ctx.branch(V.is_STR(obj.t)):
+                if not hasattr("", attr):
+                    self.raise_(st, "AttributeError", node)
                 return mk_py(BoundMethod(mk_str(simp(V.s(obj.t))), attr, cls="str"))
         if obj.k == "any" or (obj.k == "ref" and not obj.cls):
             # plain field declared identically in every class that has it: no fork on the class
@@ -941,7 +945,12 @@ class Exec:
     def read_field(self, ctx, st, obj, fi, node=None):
         arr = self.heap_get(st, fi.name)
         raw = simp(z3.Select(arr, obj.t))
-        val = self.typed(ctx, st, raw, fi.type, fi.cls, assume=True, why=f"field-type:{fi.name}:{fi.type}")
+        if obj.cls:
+            guard = cls_of(obj.t) == self.reg.classes[obj.cls].tag
+        else:
+            cands = [c for c in self.reg.classes_with_attr(fi.name)]
+            guard = z3.Or(*[cls_of(obj.t) == c.tag for c in cands])
+        val = self.typed(ctx, st, raw, fi.type, fi.cls, assume=True, why=f"field-type:{fi.name}:{fi.type}", guard=guard)
         if fi.inv and fi.name not in _INV_ACTIVE:
             from . import calls
             _INV_ACTIVE.add(fi.name)
@@ -952,7 +961,7 @@ class Exec:
             ctx.assume(c, f"invariant:{fi.name}")
         return val
 
-    def typed(self, ctx, st, raw, typ, cls=None, assume=True, why=None):
+    def typed(self, ctx, st, raw, typ, cls=None, assume=True, why=None, guard=None, glob=False):
         """Interpret a V term under a declared type (types.py mini language); with assume=True the type fact is
         assumed under the name `why` (a listed type-invariant assumption)."""
         from . import types as T
@@ -961,8 +970,14 @@ class Exec:
         ty = T.parse(typ)
         if assume:
             fact = T.fact(self, st, raw, ty)
-            ctx.assume(fact, why)
-        return T.view(self, raw, ty)
+            if guard is not None:
+                ctx.assume(z3.Implies(guard, fact), why, glob=True)
+            else:
+                ctx.assume(fact, why, glob=glob)
+        v = T.view(self, raw, ty)
+        if v.k == "ref" and v.ety is not None:
+            v.eguard = guard
+        return v
 
     def set_attr(self, ctx, st, obj, attr, v, node):
         if st.ghost.get("$spec"):
